@@ -238,7 +238,9 @@ func checkC40(r *mon.Run) {
 		"src/dst ISD-AS from {local, neighbours, remote} x named hosts (IPv4/IPv6, alternative spellings, service names, garbage) x requester " +
 		"(TCP address equal/near/other in 4- or 16-byte form, non-TCP, absent) x TLS state (none, other auth, no certificate, forged chains " +
 		"with/without ISD-AS, verifying or not) x allowed-host configuration; the real grpc.Server methods are called directly with a " +
-		"recording engine; oracle = decision table; class = rpc/row/outcome"
+		"recording engine; oracle = decision table; class = rpc/row/outcome. Concurrent phase: groups of 2-4 individually entitled AS-host / host-AS / " +
+		"host-host requests that differ in one field (named local host, remote host, protocol, second of the validity time) or are duplicates, issued at once against " +
+		"one server whose engine holds every derivation at a gate until the group is under way; every requester must receive the key derived for the parameters it named"
 	r.Assumptions = []string{
 		"chain verification against the TRC is stubbed (C34 owns it): a chain verifies iff its leaf is marked trusted, the authenticated AS is the leaf's ISD-AS attribute",
 		"a named host and a requester address are the same host iff they are the same IP after unmapping IPv4-in-IPv6",
@@ -511,7 +513,8 @@ func checkC40(r *mon.Run) {
 			r.Sample(w)
 		}
 	}
-	need := []string{}
+	c40ConcurrentPhase(r, local)
+	need := []string{"concurrent_group", "concurrent_group_overlapped", "concurrent_served_own_key"}
 	for _, rpc := range rpcs {
 		need = append(need, rpc+"_served", rpc+"_refused")
 	}
